@@ -7,7 +7,8 @@ git -C /repo worktree remove --force $wt 2>/dev/null
 git -C /repo worktree add -f $wt HEAD -q || exit 2
 ids="$@"; [ -n "$ids" ] || ids=$(ls /verif/seeded | grep -v README)
 for id in $ids; do
-  p=$(python3 -c "import json;print(json.load(open('/verif/seeded/$id/meta.json'))['property'])")
+  p=$(python3 -c "import json;m=json.load(open('/verif/seeded/$id/meta.json'));print(m.get('detected_by') or m['property'])")
+  [ "$p" = "-" ] && { echo "$id: skipped (neutralised)"; continue; }
   git -C $wt checkout -q -- . ; git -C $wt apply /verif/seeded/$id/patch.diff 2>/dev/null || { echo "$id $p: patch does not apply"; continue; }
   r=$(cd /verif && VERIF_REPO=$wt timeout 1500 ./check $p --tier quick 2>&1 | grep -E "^OK|^VIOLATION|INFRA" | head -1 | cut -c1-150)
   case "$r" in VIOLATION*) echo "$id $p: DETECTED  ${r#VIOLATION property=$p replay=}";; *) echo "$id $p: missed  ($r)";; esac
